@@ -19,7 +19,7 @@ RULE = ("(a) make_readable(mode=0) over the C01 pair classes x 4 (large,very_rea
 ASSUMPTIONS = ["own CIEDE2000 (oracles cielab+ciede2000, self-tested on the 34 published pairs); 0.05 slack = the agreement C11 grants the library's measurement",
                "routine names are auxiliary observation points: an absent attribute skips that sub-check (counted), API clause (a) still decides"]
 MUST_OBSERVE = {"any": ["strict_judged", "routine_judged:binary_search_lightness", "routine_judged:gradient_descent_oklch",
-                        "routine_judged:generate_accessible_color", "chain_steps_observed", "chains_judged"]}
+                        "routine_judged:generate_accessible_color", "chain_steps_observed", "chains_judged", "cli_strict_cards_judged"]}
 DE_SLACK = 0.05
 SIZES = {"quick": dict(strict=1600, routine=1400, chains=500), "thorough": dict(strict=16000, routine=14000, chains=5000)}
 
@@ -41,6 +41,7 @@ def shards(tier, seed):
     out += [{"kind": "strict", "cases": c} for c in PW.chunk(cases, 16)]
     out += [{"kind": "routines", "seed": seed, "idx": i, "n": z["routine"] // 16} for i in range(16)]
     out += [{"kind": "chains", "seed": seed, "idx": i, "n": z["chains"] // 16} for i in range(16)]
+    out += [{"kind": "cli", "seed": seed, "idx": i, "n": 6 if tier == "quick" else 60} for i in range(4)]
     return out
 
 
@@ -118,6 +119,19 @@ def routines(shard, rec, lib):
             t = G.lerp(b, G.uniform(rnd), rnd.uniform(0.05, 0.5))
         else:
             t, b = G.uniform(rnd), G.uniform(rnd)
+        if i % 5 == 4:
+            # caller-owned list objects, overwritten in place with a nearby shade between calls
+            if "reused" not in rec.maxima:
+                rec.maxima["reused"] = 1
+                routines._t, routines._b = list(t), list(b)
+            else:
+                routines._t[:] = [min(255, max(0, v + rnd.randrange(-9, 10))) for v in routines._t] if i % 10 == 4 else list(t)
+                routines._b[:] = list(b) if i % 15 == 4 else routines._b
+            t_arg, b_arg = routines._t, routines._b
+            t, b = tuple(t_arg), tuple(b_arg)
+            rec.count("reused_list_arguments")
+        else:
+            t_arg, b_arg = t, b
         target = rnd.choice([1.0, 3.0, 4.5, 7.0, 21.0, 22.0, round(rnd.uniform(1, 22), 2)])
         tol = rand_tol(rnd)
         large = rnd.random() < 0.5
@@ -128,11 +142,29 @@ def routines(shard, rec, lib):
             desc = f"{t}, {b}, {tol}, {target}, {large}"
             case = {"fn": nm, "t": list(t), "b": list(b), "tol": tol, "target": target, "large": large}
             try:
-                res = f(t, b, tol, target, large)
+                res = f(t_arg, b_arg, tol, target, large)
+                res = tuple(res) if isinstance(res, list) else res
             except Exception as e:
                 rec.violation(f"{nm}({desc}) raised {type(e).__name__}: {e}", case)
                 continue
             check_result(rec, nm, desc, t, res, tol, case)
+        if t_arg is not t and bsl is not None:
+            # back to back: the same list object, overwritten in place with a nearby shade, nothing else called in between
+            for _rep in range(2):
+                t_arg[:] = [min(255, max(0, v + rnd.randrange(-14, 15))) for v in t_arg]
+                t2 = tuple(t_arg)
+                for nm, f in (("binary_search_lightness", bsl), ("gradient_descent_oklch", gdo)):
+                    if f is None:
+                        continue
+                    case = {"fn": nm, "t": list(t2), "b": list(b), "tol": tol, "target": target, "large": large}
+                    try:
+                        res = f(t_arg, b_arg, tol, target, large)
+                    except Exception as e:
+                        rec.violation(f"{nm}({t2}, ...) raised {type(e).__name__}: {e}", case)
+                        continue
+                    check_result(rec, nm, f"{t2}, {b}, {tol}, {target} [same list object as the previous call, overwritten in place]", t2,
+                                 tuple(res) if isinstance(res, list) else res, tol, case)
+            t = tuple(t_arg)
         if gac is not None:
             k = rnd.randrange(0, 7)
             if rnd.random() < 0.15:
@@ -147,7 +179,8 @@ def routines(shard, rec, lib):
             desc = f"{t}, {b}, large={large}, target_contrast={target}, min_contrast={mn}, delta_e_sequence={sched}"
             case = {"fn": "generate_accessible_color", "t": list(t), "b": list(b), "large": large, "target": target, "min": mn, "sched": sched}
             try:
-                res = gac(t, b, large=large, target_contrast=target, min_contrast=mn, delta_e_sequence=None if sched is None else list(sched))
+                res = gac(t_arg, b_arg, large=large, target_contrast=target, min_contrast=mn, delta_e_sequence=None if sched is None else list(sched))
+                res = tuple(res) if isinstance(res, list) else res
             except Exception as e:
                 rec.violation(f"generate_accessible_color({desc}) raised {type(e).__name__}: {e}", case)
                 continue
@@ -234,9 +267,56 @@ def chains(shard, rec, lib):
         patch_everywhere(recording, gac)
 
 
+def cli_strict(shard, rec, lib):
+    """Strict mode through the command: with --mode 0 every adjusted rule (top level or nested in @media/@supports) must
+    be within dE 5.0 of its original colour."""
+    import os
+    import shutil
+    import tempfile
+    from cmv import clirun
+    from cmv.gen import stylesheets as SS
+    from cmv.oracles import csscolor
+    from cmv.props import c08
+    scratch = os.path.join(os.environ.get("CMV_SCRATCH", tempfile.gettempdir()), f"c04-cli-{shard['idx']}")
+    rnd = G.rng("c04cli", shard["seed"], shard["idx"])
+    for si in range(shard["n"]):
+        st = {"mode": 0, "premium": rnd.random() < 0.4, "default_bg": rnd.choice([None, "black", "#eeeeee"])}
+        dbg = (255, 255, 255) if st["default_bg"] is None else csscolor.read(st["default_bg"])
+        sheet = SS.make_sheet(rnd, premium=st["premium"], default_bg=dbg, rich=False, n_rules=rnd.choice([6, 10, 16]), allow={"repeat", "var", "same-pair"})
+        d = os.path.join(scratch, f"s{si}")
+        shutil.rmtree(d, ignore_errors=True)
+        os.makedirs(d)
+        with open(os.path.join(d, "sheet.css"), "w", encoding="utf-8") as f:
+            f.write(sheet.text)
+        rc, out, err = clirun.run(c08.cli_args("sheet.css", st), d, inprocess=True)
+        rec.ev()
+        rec.count("cli_strict_runs")
+        cards = clirun.parse_report(os.path.join(d, "cm_colors_report.html")) or []
+        for c in cards:
+            if not c["ok"]:
+                continue
+            bg = c08.read_colour(c["bg"])
+            before, _ = c08.effective_text(c["before"], bg)
+            after = c08.read_colour(c["after"])
+            if before is None or after is None:
+                continue
+            dd = own_de(before, after)
+            nested = "nested" in " ".join(sheet.features.get(c["selector"], []))
+            rec.count("cli_strict_cards_judged")
+            rec.count("cli_strict_cards_nested" if nested else "cli_strict_cards_top_level")
+            rec.maxi("max_cli_strict_dE", round(dd, 4))
+            rec.nontrivial(("cli", sheet.text, c["selector"]))
+            if dd > 5.0 + DE_SLACK:
+                rec.violation(f"cm-colors --mode 0: rule {c['selector']!r} ({'nested in an at-rule' if nested else 'top level'}) adjusted from {c['before']!r} to "
+                              f"{c['after']!r}, dE {dd:.3f} > 5.0", {"fn": "cli", "css": sheet.text, "settings": st, "selector": c["selector"]})
+        shutil.rmtree(d, ignore_errors=True)
+
+
 def work(shard, rec):
     from cmv.lib import Lib
     lib = Lib()
+    if shard["kind"] == "cli":
+        return cli_strict(shard, rec, lib)
     if shard["kind"] == "strict":
         PW.run_cases(shard, rec, lib, [judge_strict])
     elif shard["kind"] == "routines":
@@ -272,6 +352,9 @@ def replay(case):
         mx = 5.0 if case["sched"] is None else (max(case["sched"]) if case["sched"] else 0.0)
         print(f"generate_accessible_color(...) = {res}; own dE = {own_de(t, res)}; max tolerance {mx}")
         check_result(rec, fn, "replay", t, res, mx, case)
+    elif fn == "cli":
+        print("settings", case["settings"], "selector", case["selector"], "\n" + case["css"])
+        return True
     else:
         sh = {"seed": 0, "idx": 0, "n": 0}
         print("chain case:", {k: v for k, v in case.items() if k != "steps"})
